@@ -387,6 +387,7 @@ theorem inv_step {env : Env} {s : State} (h : Inv env s) (st : Step) : Inv env (
   | sarCache rid => exact inv_sarCache h rid
   | sarLookup rid => exact inv_sarLookup h rid
   | sarFinish rid => exact inv_sarFinish h rid
+  | dispatch host up ch => exact h
 
 theorem inv_runSteps {env : Env} {s : State} (h : Inv env s) (steps : List Step) : Inv env (runSteps env s steps).1 := by
   induction steps generalizing s with
@@ -881,6 +882,7 @@ theorem step_pend (env : Env) (s : State) (st : Step) :
   | sarCache rid => exact sarCache_pend s rid
   | sarLookup rid => exact sarLookup_pend s rid
   | sarFinish rid => exact sarFinish_pend env s rid
+  | dispatch host up ch => exact ⟨tps_same (Nat.le_refl _) rfl, sps_same (Nat.le_refl _) rfl⟩
 
 /-! ## following one request id through a run -/
 
@@ -959,6 +961,9 @@ theorem step_tok_out {env : Env} {s : State} (h : Inv env s) (st : Step) (t : To
   | sarFinish rid =>
     obtain ⟨t', e, _⟩ := sarFinish_out (env := env) rid _ ht
     cases e
+  | dispatch host up ch =>
+    simp only [step, dispatch, List.mem_singleton] at ht
+    cases ht
 
 theorem step_sar_out {env : Env} {s : State} (h : Inv env s) (st : Step) (t : SarOut)
     (ht : Out.sar t ∈ (step env s st).2) : (SarOutOK env t ∧ SarFrom s t) ∨ s.nextRid ≤ t.rid := by
@@ -992,6 +997,9 @@ theorem step_sar_out {env : Env} {s : State} (h : Inv env s) (st : Step) (t : Sa
   | sarFinish rid =>
     obtain ⟨t', e, h1, h2⟩ := sarFinish_out (env := env) rid _ ht
     cases e; exact Or.inl ⟨h1, h2⟩
+  | dispatch host up ch =>
+    simp only [step, dispatch, List.mem_singleton] at ht
+    cases ht
 
 /-- request id `rid` has been handed out and, while it is pending as a token request, it is for a host / token /
     resolved cluster satisfying `Q` -/
@@ -1185,6 +1193,20 @@ mutual
           | apply runOK_app
           | apply runOK_macros env mid0
           | apply runOK_macros env mid)
+    | .pipe hostport tok attrs mid0 mid1 mid2 midA mid midD, r, h => by
+      unfold runMacro
+      simp only []
+      repeat' split
+      all_goals
+        repeat (first
+          | exact h
+          | apply runOK_app
+          | apply runOK_macros env mid0
+          | apply runOK_macros env mid1
+          | apply runOK_macros env mid2
+          | apply runOK_macros env midA
+          | apply runOK_macros env mid
+          | apply runOK_macros env midD)
   theorem runOK_macros (env : Env) : ∀ (ms : List Macro) (r : Run), RunOK env r → RunOK env (runMacros env r ms)
     | [], r, h => by
       unfold runMacros
